@@ -34,6 +34,17 @@ def _ensure_integer_ids(df: pd.DataFrame) -> pd.DataFrame:
         id_mapping = {
             original_id: new_id for new_id, original_id in enumerate(unique_ids, start=1)
         }
+        unknown_parents = [
+            parent_id
+            for parent_id in df["parent_id"]
+            if not pd.isna(parent_id)
+            and parent_id not in id_mapping
+            and parent_id not in ("", -1, "-1")  # ways of saying "no parent"
+        ]
+        if unknown_parents:
+            raise ValueError(
+                f"Some parent ids do not refer to any node id: {unknown_parents}"
+            )
         df["id"] = df["id"].map(id_mapping)
         df["parent_id"] = df["parent_id"].map(id_mapping).astype(pd.Int64Dtype())
 
@@ -78,14 +89,6 @@ class CSVTracksBuilder(TracksBuilder):
             else source.copy()  # Make a copy to avoid modifying original
         )
 
-        # Validate that 'id' column contains unique values
-        if "id" in df.columns and not df["id"].is_unique:
-            raise ValueError("The 'id' column must contain unique values")
-
-        # Ensure integer IDs (convert string IDs to integers if needed)
-        if "id" in df.columns and "parent_id" in df.columns:
-            df = _ensure_integer_ids(df)
-
         # For backward compatibility, extend node_name_map with node_features
         # Only add features that should be loaded (recompute=False)
         extended_name_map = dict(node_name_map)
@@ -102,6 +105,15 @@ class CSVTracksBuilder(TracksBuilder):
             if source_col in df.columns and target_key not in new_df_data:
                 new_df_data[target_key] = df[source_col].copy()
         df = pd.DataFrame(new_df_data)
+
+        # Validate that 'id' column contains unique values (the columns carry their
+        # standard names from here on, whatever they were called in the source)
+        if "id" in df.columns and not df["id"].is_unique:
+            raise ValueError("The 'id' column must contain unique values")
+
+        # Ensure integer IDs (convert string IDs to integers if needed)
+        if "id" in df.columns and "parent_id" in df.columns:
+            df = _ensure_integer_ids(df)
 
         # Convert NaN to None
         df = df.map(lambda x: None if pd.isna(x) else x)
